@@ -427,12 +427,13 @@ theorem modProps_raised (cfg : Cfg Val) (ds : List (ModPropDesc Val)) (acc : Mod
   | nil => exact h
   | cons d ds ih => exact ih _ (by simp [modPropStep, h])
 
-/-- nothing collected and no exception: every module property was absent from the cfg or accepted -/
+/-- nothing collected and no exception: every module property was absent from the cfg or accepted, and no dict
+given for a property had a key besides `value` -/
 theorem modProps_ok (cfg : Cfg Val) :
     ∀ (ds : List (ModPropDesc Val)) (acc : ModPropsOut Val), acc.raised = false →
       (ds.foldl (modPropStep cfg) acc).raised = false → (ds.foldl (modPropStep cfg) acc).errs = [] →
-      acc.errs = [] ∧ ∀ d ∈ ds, applyModProp d (lookup d.name cfg) = .absent ∨
-        ∃ v, applyModProp d (lookup d.name cfg) = .set v := by
+      acc.errs = [] ∧ ∀ d ∈ ds, extraKeys (lookup d.name cfg) = [] ∧
+        (applyModProp d (lookup d.name cfg) = .absent ∨ ∃ v, applyModProp d (lookup d.name cfg) = .set v) := by
   intro ds
   induction ds with
   | nil => intro acc _ _ he; exact ⟨he, fun d hd => by cases hd⟩
@@ -441,24 +442,31 @@ theorem modProps_ok (cfg : Cfg Val) :
     simp only [List.foldl_cons] at hr he
     cases hap : applyModProp d (lookup d.name cfg) with
     | absent =>
-      have hstep : (modPropStep cfg acc d).raised = false ∧ (modPropStep cfg acc d).errs = acc.errs := by
+      have hstep : (modPropStep cfg acc d).raised = false ∧ (modPropStep cfg acc d).errs =
+          acc.errs ++ (extraKeys (lookup d.name cfg)).map (CfgErr.unknownProp d.name) := by
         simp only [modPropStep, hacc, hap]; cases d.classValue <;> simp [hacc]
       obtain ⟨h1, h2⟩ := ih _ hstep.1 hr he
-      refine ⟨by rw [← hstep.2]; exact h1, fun d' hd' => ?_⟩
+      rw [hstep.2] at h1
+      simp only [List.append_eq_nil_iff, List.map_eq_nil_iff] at h1
+      refine ⟨h1.1, fun d' hd' => ?_⟩
       rcases List.mem_cons.1 hd' with rfl | hin
-      · exact Or.inl hap
+      · exact ⟨h1.2, Or.inl hap⟩
       · exact h2 d' hin
     | set v =>
-      have hstep : (modPropStep cfg acc d).raised = false ∧ (modPropStep cfg acc d).errs = acc.errs := by
+      have hstep : (modPropStep cfg acc d).raised = false ∧ (modPropStep cfg acc d).errs =
+          acc.errs ++ (extraKeys (lookup d.name cfg)).map (CfgErr.unknownProp d.name) := by
         simp [modPropStep, hacc, hap]
       obtain ⟨h1, h2⟩ := ih _ hstep.1 hr he
-      refine ⟨by rw [← hstep.2]; exact h1, fun d' hd' => ?_⟩
+      rw [hstep.2] at h1
+      simp only [List.append_eq_nil_iff, List.map_eq_nil_iff] at h1
+      refine ⟨h1.1, fun d' hd' => ?_⟩
       rcases List.mem_cons.1 hd' with rfl | hin
-      · exact Or.inr ⟨v, hap⟩
+      · exact ⟨h1.2, Or.inr ⟨v, hap⟩⟩
       · exact h2 d' hin
     | bad =>
       have hstep : (modPropStep cfg acc d).raised = false ∧
-          (modPropStep cfg acc d).errs = acc.errs ++ [.badModProp d.name] := by
+          (modPropStep cfg acc d).errs = acc.errs ++ (extraKeys (lookup d.name cfg)).map (CfgErr.unknownProp d.name)
+            ++ [.badModProp d.name] := by
         simp only [modPropStep, hacc, hap]; cases d.classValue <;> simp
       obtain ⟨h1, _⟩ := ih _ hstep.1 hr he
       rw [hstep.2] at h1; simp at h1
